@@ -3,6 +3,7 @@ from mc import world
 from mc.engine import Family, Res
 from mc.interp import build, count_events
 from mc.ref.schedule import Judge, canonical_state
+from mc.ref.unroll import model_build, model_rows, impl_rows, Sched
 from mc.spaces import FlatSpace, NestedSpace1, N1_BODIES, N1_BODIES_EXTRA
 
 
@@ -49,6 +50,14 @@ class SchedFamily(Family):
             outcome = [tuple((round(o.start_time, 9), round(o.end_time, 9)) for o in ops), round(circ.duration, 9)]
             n_events = count_events(prog)
             if self.unroll:
+                model = sched = None
+                if 'C01' in self.want:
+                    # the model schedule is used only where it agrees with the implementation as built (tie-breaks are not prescribed)
+                    model = model_build(prog, cfg)
+                    sched = Sched(cfg)
+                    if impl_rows(ops) != model_rows(model, sched):
+                        model = None
+                        res.extra = {'model-inapplicable': 1}
                 world.clear_memo()  # a fresh reading of the unrolled circuit (history effects belong to C03)
                 un = circ.apply_modifiers()
                 world.clear_memo()
@@ -56,6 +65,11 @@ class SchedFamily(Family):
                 uops_again = un.operations
                 if 'C01' in self.want:
                     judge.check_times(un, uops, 'unrolled')
+                    if model is not None:
+                        model.unroll(sched)
+                        mrows, irows = model_rows(model, sched), impl_rows(uops)
+                        if sorted(mrows) != sorted(irows):
+                            res.fail('C01-unrolled-schedule', 'program %r: after unrolling, copies do not start when the latest-ending relation leaf before them ends: model %r, reported %r' % (prog, mrows, irows))
                 if 'C02' in self.want:
                     if len(uops) != len(uops_again) or any(x is not y for x, y in zip(uops, uops_again)):
                         res.fail('C02-unstable', 'unrolled: listing twice gives different sequences')
